@@ -3,7 +3,8 @@
    Implementation model: Model/PredImpl.v (the repaired tree: eval_expr = eval_tv = Some(true) as
    used by FilterExec, eval_value = evaluate_to_value of the select list, try_fold / fold_iter =
    ConstantFoldingRule, like_loop, parser precedence).  Side conditions: Model/PredClass.v
-   (wf_expr: literals the harness can print and non-empty IN lists; plain cells; class 13). *)
+   (wf_expr: literals the harness can print and non-empty IN lists; plain cells).  No finding
+   class is open: known_class is 0 on the whole modelled language. *)
 From Coq Require Import ZArith List Bool Permutation.
 From TV Require Import Model.SqlSpec Model.PredImpl Model.PredClass
   Proof.SqlSpecLaws Proof.PredLike Proof.PredEval Proof.PredFold Proof.PredRefute.
@@ -40,13 +41,13 @@ Proof. exact like_impl_correct. Qed.
         IS [NOT] NULL, predicates as operands, integer arithmetic), every row of plain cells, wherever the
         reference semantics is defined *)
 Theorem filter_correct :
-  forall e r t, wf_expr e = true -> plain_row r = true -> cls13 e r = 0 -> sem3 e r = Some t ->
+  forall e r t, wf_expr e = true -> plain_row r = true -> sem3 e r = Some t ->
     eval_expr e r = Ok (tv_is_true t).
 Proof. exact eval_expr_correct. Qed.
 
 (* ---- the select list evaluates to the same TRUE / FALSE / NULL *)
 Theorem select_value_correct :
-  forall e r t, wf_expr e = true -> plain_row r = true -> cls13 e r = 0 -> sem3 e r = Some t ->
+  forall e r t, wf_expr e = true -> plain_row r = true -> sem3 e r = Some t ->
     exists o, eval_value e r = Ok o /\ code_of o = code_of_tv (Some t).
 Proof. exact eval_value_correct. Qed.
 
@@ -63,12 +64,7 @@ Theorem select_correct :
     model_select (parsed sty e) t = MOut (QVals (spec_vals e t)).
 Proof. exact select_query_correct. Qed.
 
-(* ---- the remaining class hypothesis cannot be dropped: a BETWEEN bound that is arithmetic over
-        NULL (witness of the open finding F-C14-13, re-run on the real Database by every check) *)
-Theorem class13_refuted : where_wrong 0 13 e13 T13.
-Proof. exact PredRefute.class13_refuted. Qed.
-
-(* ---- non-vacuity: the witnesses of the twelve repaired findings are inside the hypotheses of
+(* ---- non-vacuity: the witnesses of the thirteen repaired findings are inside the hypotheses of
         where_correct / select_correct, and so are queries with NOT, negated forms and NULLs that
         keep some rows and drop others *)
 Example c14_repaired_witnesses :
@@ -86,7 +82,8 @@ Example c14_repaired_witnesses :
     [[VInt 1; VFloat 4352464011485697175]; [VInt 2; VFloat 0]] /\
   where_right 0 (ECmp CGt (ECol 1) (ELit (VInt (-9223372036854775808))))
     [[VInt 1; VInt 0]; [VInt 2; VInt (-5)]] /\
-  where_right 1 (ENot c1_eq_1) T3.
+  where_right 1 (ENot c1_eq_1) T3 /\
+  where_right 0 e13 T13 /\ spec_rows e13 T13 = [1; 1].
 Proof. exact repaired_witnesses. Qed.
 Example c14_witness :
   cls_where 0 good1 T3 = 0 /\ defined_on good1 T3 = true /\ spec_rows good1 T3 = [0; 1; 1] /\
@@ -106,15 +103,14 @@ Check sem3_laws :
 Check tlp_partition : forall p t, defined_on p t = true ->
     Permutation (filter_spec p t ++ filter_spec (ENot p) t ++ filter_spec (EIsNull false p) t) t.
 Check like_match_spec : forall s q, like_impl s q = Some (like_spec q s).
-Check filter_correct : forall e r t, wf_expr e = true -> plain_row r = true -> cls13 e r = 0 ->
+Check filter_correct : forall e r t, wf_expr e = true -> plain_row r = true ->
     sem3 e r = Some t -> eval_expr e r = Ok (tv_is_true t).
-Check select_value_correct : forall e r t, wf_expr e = true -> plain_row r = true -> cls13 e r = 0 ->
+Check select_value_correct : forall e r t, wf_expr e = true -> plain_row r = true ->
     sem3 e r = Some t -> exists o, eval_value e r = Ok o /\ code_of o = code_of_tv (Some t).
 Check where_correct : forall sty e t, cls_where sty e t = 0 -> defined_on e t = true ->
     model_where (parsed sty e) t = MOut (QRows (spec_rows e t)).
 Check select_correct : forall sty e t, cls_select sty e t = 0 -> defined_on e t = true ->
     model_select (parsed sty e) t = MOut (QVals (spec_vals e t)).
-Check class13_refuted : where_wrong 0 13 e13 T13.
 
 Print Assumptions sem3_laws.
 Print Assumptions tlp_partition.
@@ -123,4 +119,3 @@ Print Assumptions filter_correct.
 Print Assumptions select_value_correct.
 Print Assumptions where_correct.
 Print Assumptions select_correct.
-Print Assumptions class13_refuted.
